@@ -165,6 +165,11 @@ pub fn install_quiet_panic_hook() {
             "<non-string panic>".to_string()
         };
         let loc = info.location().map(|l| format!("{}:{}", l.file(), l.line())).unwrap_or_default();
+        // a panic raised by the harness or the oracle itself (never expected) is shown: if it happens inside a
+        // generator it ends the run with exit 101 (reported by ./check as an infrastructure error, exit 2)
+        if loc.contains("harness/src") || loc.contains("oracle/src") || loc.contains("cfgprobe/src") {
+            eprintln!("harness panic: {} @ {}", msg, loc);
+        }
         LAST_PANIC.with(|p| *p.borrow_mut() = Some(format!("{} @ {}", msg, loc)));
     }));
 }
